@@ -1457,8 +1457,12 @@ class FileSet:
         try:
             # Maybe there is a file with exact this timestamp?
             path = self.get_filename(timestamp, )
-            if self.file_system.isfile(path):
-                return self.get_info(path)
+            if filters is None and self.file_system.isfile(path):
+                file_info = self.get_info(path)
+                # This short cut must not return a file that the general
+                # search below would never return (see exclude argument):
+                if not self.is_excluded(file_info):
+                    return file_info
         except (UnknownPlaceholderError, UnfilledPlaceholderError):
             pass
 
